@@ -147,6 +147,7 @@ def run_check(prop: str, tier: str) -> int:
     digests_a = {}
     violations = []
     unreproduced = []
+    known_in_workers: dict = {}
     for _tag, lines in results:
         for l in lines:
             t = l.get("type")
@@ -160,6 +161,8 @@ def run_check(prop: str, tier: str) -> int:
                     sets.setdefault(k, set()).update(s)
                 nt_digests.update(l["nt_digests"])
                 samples.extend(l["samples"])
+                for fid, n in (l.get("known_seen") or {}).items():
+                    known_in_workers[fid] = known_in_workers.get(fid, 0) + n
             elif t == "digest":
                 digests_a[l["i"]] = l["d"]
             elif t == "violation":
@@ -244,7 +247,7 @@ def run_check(prop: str, tier: str) -> int:
                           f"not in fresh interpreters - something the simulator does not control (S6: object identity / allocator state) is involved; scenario kept at {u['replay']}")
 
     # ---- violations: confirm by replay in a fresh interpreter ----------------- #
-    matched = {}
+    matched = dict(known_in_workers)
     for v in violations:
         path = v["replay"]
         ok, rerr, _out = reproduces(prop, path)
